@@ -1,6 +1,7 @@
 package main
 
 import (
+	"go/constant"
 	"go/token"
 	"go/types"
 	"strings"
@@ -62,17 +63,27 @@ func (p *Prog) LeavesNoFields(v ssa.Value, visit func(ssa.Value) FlowAct) []ssa.
 	return f.leaves
 }
 
+// LeavesUp is LeavesNoFields that, at a parameter of an unexported function which is only ever called directly,
+// continues with the arguments its callers pass (a value threaded through a helper or moved to the caller).
+func (p *Prog) LeavesUp(v ssa.Value, visit func(ssa.Value) FlowAct) []ssa.Value {
+	f := &flowWalk{p: p, seen: map[ssa.Value]bool{}, visit: visit, fields: false, ascend: true}
+	f.walk(v, 5, nil)
+	return f.leaves
+}
+
 type callCtx struct {
 	call   *ssa.CallCommon
 	parent *callCtx
 }
 
 type flowWalk struct {
-	p      *Prog
-	seen   map[ssa.Value]bool
-	visit  func(ssa.Value) FlowAct
-	leaves []ssa.Value
-	fields bool
+	p       *Prog
+	seen    map[ssa.Value]bool
+	visit   func(ssa.Value) FlowAct
+	leaves  []ssa.Value
+	fields  bool
+	ascents int
+	ascend  bool // follow parameters of private, only-directly-called functions to their callers' arguments
 }
 
 func (f *flowWalk) leaf(v ssa.Value) { f.leaves = append(f.leaves, v) }
@@ -111,6 +122,18 @@ func (f *flowWalk) walk(v ssa.Value, calls int, ctx *callCtx) {
 				}
 			}
 		}
+		// no calling context: a parameter of a private function that is only ever called directly stands for
+		// what its callers pass (value threaded through a helper); bounded, and only for unexported functions
+		if f.ascend && ctx == nil && f.ascents < 3 && f.p != nil {
+			if args := f.p.callerArgs(x); len(args) > 0 {
+				f.ascents++
+				for _, a := range args {
+					f.walk(a, calls, nil)
+				}
+				f.ascents--
+				return
+			}
+		}
 		f.leaf(v)
 	case *ssa.FreeVar:
 		// find binding in the MakeClosure of the parent
@@ -136,7 +159,10 @@ func (f *flowWalk) walk(v ssa.Value, calls int, ctx *callCtx) {
 			f.leaf(v)
 		}
 	case *ssa.Phi:
-		for _, e := range x.Edges {
+		for i, e := range x.Edges {
+			if errorPathEdge(x, i) {
+				continue // the zero value that accompanies a non-nil error: never used (see errorPathEdge)
+			}
 			f.walk(e, calls, ctx)
 		}
 	case *ssa.Extract:
@@ -428,4 +454,170 @@ func (p *Prog) DerivesFrom(v ssa.Value, callees []string, fields []string) bool 
 		return Descend
 	})
 	return found
+}
+
+// errorPathEdge: incoming edge i of ph carries a zero-value constant while, on the same edge, a sibling φ of type
+// error carries an error that is known not to be nil (built on the spot, or tested non-nil on the way). That is the
+// shape of `return zero, err` paths joined with the success path — produced when an extracted helper is expanded
+// back in place — and the zero value is dead: the caller's `if err != nil` leaves before using it. Provenance
+// walks skip such edges.
+func errorPathEdge(ph *ssa.Phi, i int) bool {
+	if i >= len(ph.Edges) || i >= len(ph.Block().Preds) {
+		return false
+	}
+	c, ok := ph.Edges[i].(*ssa.Const)
+	if !ok {
+		return false
+	}
+	if c.Value != nil {
+		switch c.Value.Kind() {
+		case constant.String:
+			if constant.StringVal(c.Value) != "" {
+				return false
+			}
+		case constant.Int:
+			if v, ok := constant.Int64Val(c.Value); !ok || v != 0 {
+				return false
+			}
+		case constant.Bool:
+			if constant.BoolVal(c.Value) {
+				return false
+			}
+		default:
+			return false
+		}
+	}
+	if ph.Type().String() == "error" {
+		return false
+	}
+	pred := ph.Block().Preds[i]
+	for _, in := range ph.Block().Instrs {
+		sib, ok := in.(*ssa.Phi)
+		if !ok {
+			break
+		}
+		if sib == ph || sib.Type().String() != "error" || i >= len(sib.Edges) {
+			continue
+		}
+		ev := sib.Edges[i]
+		if IsNilConst(ev) {
+			continue
+		}
+		if NeverNil(ev) {
+			return true
+		}
+		// tested non-nil on the way to this predecessor
+		for d := pred; d != nil; d = d.Idom() {
+			id := d.Idom()
+			if id == nil {
+				break
+			}
+			ifi, ok := lastInstr(id).(*ssa.If)
+			if !ok || len(id.Succs) != 2 {
+				continue
+			}
+			e, trueMeansNil, isChk := IsErrNilCheck(ifi.Cond)
+			if !isChk || e != ev {
+				continue
+			}
+			// which successor leads to d?
+			nonNilSucc := id.Succs[0]
+			if trueMeansNil {
+				nonNilSucc = id.Succs[1]
+			}
+			if nonNilSucc == d || nonNilSucc.Dominates(d) {
+				return true
+			}
+		}
+	}
+	return false
+}
+
+// LiveValue looks through φ-nodes all of whose incoming edges but one are dead zero values of error paths
+// (errorPathEdge) and returns the one value that can actually be used.
+func LiveValue(v ssa.Value) ssa.Value {
+	for depth := 0; depth < 6; depth++ {
+		ph, ok := v.(*ssa.Phi)
+		if !ok {
+			return v
+		}
+		var live []ssa.Value
+		for i, e := range ph.Edges {
+			if errorPathEdge(ph, i) || e == ssa.Value(ph) {
+				continue
+			}
+			dup := false
+			for _, l := range live {
+				if l == e {
+					dup = true
+				}
+			}
+			if !dup {
+				live = append(live, e)
+			}
+		}
+		if len(live) != 1 {
+			return v
+		}
+		v = live[0]
+	}
+	return v
+}
+
+// callerArgs returns, for a parameter of an unexported function of the repository that is never used as a value
+// (only called directly), the arguments passed for it at every call site; nil otherwise.
+func (p *Prog) callerArgs(prm *ssa.Parameter) []ssa.Value {
+	fn := prm.Parent()
+	if fn == nil || fn.Pkg == nil || fn.Parent() != nil || !productPkg(fn.Pkg.Pkg.Path()) {
+		return nil
+	}
+	obj := fn.Object()
+	if obj == nil || obj.Exported() {
+		return nil
+	}
+	if p.callSites == nil {
+		p.callSites = map[*ssa.Function][]*ssa.CallCommon{}
+		p.usedAsValue = map[*ssa.Function]bool{}
+		for _, f := range p.srcFns {
+			for _, b := range f.Blocks {
+				for _, in := range b.Instrs {
+					if cc := AsCall(in); cc != nil {
+						if sc := cc.StaticCallee(); sc != nil && !cc.IsInvoke() {
+							p.callSites[sc] = append(p.callSites[sc], cc)
+						}
+					}
+					// any other mention of the function is a use as a value
+					var ops []*ssa.Value
+					for _, op := range in.Operands(ops) {
+						if op == nil || *op == nil {
+							continue
+						}
+						if g, ok := (*op).(*ssa.Function); ok {
+							if cc := AsCall(in); cc != nil && cc.Value == ssa.Value(g) {
+								continue
+							}
+							p.usedAsValue[g] = true
+						}
+					}
+				}
+			}
+		}
+	}
+	if p.usedAsValue[fn] {
+		return nil
+	}
+	idx := -1
+	for i, q := range fn.Params {
+		if q == prm {
+			idx = i
+		}
+	}
+	var out []ssa.Value
+	for _, cc := range p.callSites[fn] {
+		if idx < 0 || idx >= len(cc.Args) {
+			return nil
+		}
+		out = append(out, cc.Args[idx])
+	}
+	return out
 }
